@@ -4,6 +4,7 @@
 package segment
 
 import (
+	"bytes"
 	"fmt"
 	"hash/crc32"
 	"io"
@@ -96,7 +97,54 @@ func recoverFile(info types.SegmentInfo, wf types.WritableFile, bufPool *sync.Po
 		return nil, err
 	}
 
+	// Anything left after the recovered write offset was never acknowledged.
+	// Erase it so it can never be picked up by a later recovery.
+	if err := w.clearStaleTail(); err != nil {
+		return nil, err
+	}
+
 	return w, nil
+}
+
+// clearStaleTail zeros whatever follows the recovered write offset and syncs.
+// Those bytes belong to batches that were torn by a crash. If they were left in
+// place, a later torn append could end up interleaved with them on disk in a
+// way that passes the commit CRC of the old batch (old and new frames sit at
+// the same offsets), making recovery return entries of an older, never
+// acknowledged generation.
+func (w *Writer) clearStaleTail() error {
+	start := int64(w.writer.writeOffset)
+	buf := make([]byte, minBufSize)
+	zeros := make([]byte, minBufSize)
+
+	dirtyEnd := int64(-1)
+	off := start
+	for {
+		n, err := w.wf.ReadAt(buf, off)
+		if err != nil && err != io.EOF {
+			return err
+		}
+		if n > 0 && !bytes.Equal(buf[:n], zeros[:n]) {
+			dirtyEnd = off + int64(n)
+		}
+		off += int64(n)
+		if err == io.EOF || n == 0 {
+			break
+		}
+	}
+	if dirtyEnd < 0 {
+		return nil
+	}
+	for off = start; off < dirtyEnd; off += int64(len(zeros)) {
+		n := dirtyEnd - off
+		if n > int64(len(zeros)) {
+			n = int64(len(zeros))
+		}
+		if _, err := w.wf.WriteAt(zeros[:n], off); err != nil {
+			return err
+		}
+	}
+	return w.wf.Sync()
 }
 
 func (w *Writer) initEmpty() error {
